@@ -42,6 +42,8 @@ CLAIMED = {
          "All 90+ ordering functions of the repository are collected from their call sites and shown not to reach a tolerance equality, the structural cause of out-of-order neighbours for close values; the two sort paths are shown to share one comparison; the newest-first streaming search is shown to release records only up to the segment cut-off on every time-ordered path. The merge of overlapping blocks, limits and pagination as outcomes are not decided."),
  "C06": ("§3 C06", "static analysis: receiver-rooted field read/write sets over the static call cone of Process/Rewind for every implementation of the processor interface (found with types.Implements), categories derived from GetFinalResultIfExists and Rewind, path rule on the CachedStream invariant, structural comparison of constructor flag expressions",
          "For all 27 pipeline processors the check shows that every piece of cross-batch state kept by Process is re-initialised by Rewind (or the command replays a cached final result / is the two-pass accumulator itself), which is the precondition for a two-pass command downstream to see the same input twice; that leftover rows handed back to a cached stream un-exhaust it; and that two-pass commands are constructed as bottlenecks. The commands' semantics and chunking independence as an outcome are not decided."),
+ "C20": ("§3 C20", "static analysis: truth-table check of the alert condition arms, constant-leaf/edge-condition analysis of the state chosen in handleAlertCondition, structural window rule and non-zero bound on the history query, dominance guards on notification sends, forward path PERSIST rule over the mirrored tables of the keyed stores, file-name template agreement, alias/index role (qualifier) inference, loader coverage of the default tenant",
+         "The alert condition switch is compared with its meaning on every ordering of value and threshold; the state recorded after an evaluation is shown to be Normal/Pending/Firing exactly on the edges where the condition outcome and the window test say so, with notifications attempted only for Firing and Normal and gated by cool-down and silence tests; the window test is shown to read exactly the newest N-1 rows of the evaluated alert with a non-zero limit and to answer true only after scanning all of them. For saved queries, dashboards, folders and index aliases every in-memory mutation is shown to reach the store's file before success on all paths, writes replace whole objects, readers and writers agree on file names, alias and index names are never exchanged, and the start-up loader covers the default tenant. Outcomes over real histories, clocks, sqlite behaviour and content equality after restart are not decided."),
 }
 
 NOT_APPLICABLE = {
